@@ -113,8 +113,9 @@ theorem wrong_reflected_handler_counterexample :
     revert this
     decide
 
-/-- **D20 (finding).** `add` registered as its own second-argument handler (what `_implements_symmetric(torch.add)`
-does) receives `alpha` after the operand swap: `torch.add(T, op, alpha=a)` evaluates `op + a·T`, not `T + a·op`. -/
+/-- **D20 (fixed in /repo by 1322025).** `add` registered as its own second-argument handler (what
+`_implements_symmetric(torch.add)` did) receives `alpha` after the operand swap: `torch.add(T, op, alpha=a)` would
+evaluate `op + a·T`, not `T + a·op` — the reason `reflectedAlphaExact` does not accept the pair (add, `add`). -/
 theorem add_alpha_second_arg_counterexample :
     ∃ (X A : Mat Int 1 1) (a : Int), methSem (α := Int) true .add A X (some a) ≠ spec .add X A (some a) := by
   refine ⟨fun _ _ => 1, fun _ _ => 0, 2, ?_⟩
@@ -167,10 +168,16 @@ theorem table_first_sound :
     ∀ c ∈ operatorClasses, ∀ e ∈ handledFirst, (BinFn.ofName e.1).isSome = true → firstEntryOK genTables c e = true := by
   decide +kernel
 
-/-- With `alpha`, every second-argument registration except `torch.add` (D20) is right-or-TypeError. -/
+/-- With `alpha`, **every** second-argument registration of add/sub (`torch.add`, `Tensor.add`, `torch.sub`,
+`Tensor.sub`) is a reflected handler that accepts the keyword and applies it to the operator operand. -/
+theorem table_second_alpha_sound :
+    ∀ c ∈ operatorClasses, ∀ e ∈ handledSecond,
+      (BinFn.ofName e.1 = some .add ∨ BinFn.ofName e.1 = some .sub) → secondEntryAlphaExact genTables c e = true := by
+  decide +kernel
+
+/-- …and no second-argument registration can return a wrong value with `alpha` (right value or `TypeError`). -/
 theorem table_second_alpha_partial :
-    ∀ c ∈ operatorClasses, ∀ e ∈ handledSecond, e.1 = "torch.isclose" ∨ e.1 = "torch.add" ∨
-      secondEntryAlphaOK genTables c e = true := by
+    ∀ c ∈ operatorClasses, ∀ e ∈ handledSecond, e.1 = "torch.isclose" ∨ secondEntryAlphaOK genTables c e = true := by
   decide +kernel
 
 /-- No subclass overrides a reflected handler or `add`/`sub`: the bodies mirrored by `methSem` are the ones
@@ -228,16 +235,41 @@ theorem op_op_left_meaning_generated (a b : String) (ha : a ∈ operatorClasses)
     ∃ f, BinFn.ofName e.1 = some f ∧ evalBinary genTables e.1 (.op a) (.op b) X Y none = spec f X Y none :=
   evalBinary_op_op_left genTables a b e (table_first_sound a ha e he hf) hab X Y
 
-/-- With `alpha` on the second-argument path (everything but `torch.add`, D20): right value or `TypeError`. -/
+/-- **`alpha` with the operator second (full, D20 closed)**: `torch.add(x, op, alpha=a)`, `x.add(op, alpha=a)`,
+`torch.sub(x, op, alpha=a)`, `x.sub(op, alpha=a)` evaluate to `X ± a·A` on every operator class. -/
+theorem second_arg_alpha_generated (c : String) (hc : c ∈ operatorClasses) (e : String × String)
+    (he : e ∈ handledSecond) (hb : BinFn.ofName e.1 = some .add ∨ BinFn.ofName e.1 = some .sub)
+    (a0 : Arg) (h0 : a0.plain = true) (X A : Mat α n n) (a : α) :
+    ∃ b, BinFn.ofName e.1 = some b ∧ evalBinary genTables e.1 a0 (.op c) X A (some a) = spec b X A (some a) :=
+  evalBinary_second_alpha_exact genTables c e (table_second_alpha_sound c hc e he hb) a0 h0 X A a
+
+/-- Weaker statement kept for every entry (also mul/matmul, which reject `alpha`): right value or `TypeError`. -/
 theorem second_arg_alpha_generated_partial (c : String) (hc : c ∈ operatorClasses) (e : String × String)
-    (he : e ∈ handledSecond) (hni : e.1 ≠ "torch.isclose") (hna : e.1 ≠ "torch.add") (a0 : Arg) (h0 : a0.plain = true)
+    (he : e ∈ handledSecond) (hni : e.1 ≠ "torch.isclose") (a0 : Arg) (h0 : a0.plain = true)
     (X A : Mat α n n) (a : α) (b : BinFn) (hb : BinFn.ofName e.1 = some b) (hb' : b = .add ∨ b = .sub) :
     evalBinary genTables e.1 a0 (.op c) X A (some a) = spec b X A (some a) ∨
       evalBinary genTables e.1 a0 (.op c) X A (some a) = .error .typeError := by
-  rcases table_second_alpha_partial c hc e he with h | h | h
+  rcases table_second_alpha_partial c hc e he with h | h
   · exact absurd h hni
-  · exact absurd h hna
   · exact evalBinary_second_alpha genTables c e h a0 h0 X A a b hb hb'
+
+/-- **Finding (open): operator passed by keyword.** `torch.f(x, other=op)` for a registered two-operand function
+ends in `IndexError` (`args[1]` of a 1-tuple) on every operator class — it raises, but neither computes
+`f(x, op)` nor says `NotImplementedError`. -/
+theorem operator_by_keyword_index_error (c : String) (hc : c ∈ operatorClasses) (e : String × String)
+    (he : e ∈ handledSecond) (a0 : Arg) (h0 : a0.plain = true) :
+    dispatchK genTables e.1 [a0] [.op c] () = .indexError := by
+  have hr := table_handled_resolves c hc e (List.mem_append_right _ he)
+  obtain ⟨d, hd⟩ := Option.isSome_iff_exists.1 hr
+  exact dispatchK_operator_by_keyword genTables c e.1 e.2 d a0 () h0 (table_second_lookup e he) hd
+where
+  table_second_lookup : ∀ e ∈ handledSecond, genTables.second.lookup e.1 = some e.2 := by decide +kernel
+
+/-- `torch.f(op, other=x)` (the other operand by keyword) is the ordinary first-argument call with `other` in kwargs. -/
+theorem other_by_keyword_dispatch {κ : Type} (T : Tables) (c f m d : String) (kwops : List Arg) (kw : κ)
+    (hk : ∀ a ∈ kwops, a.plain = true) (hf : T.first.lookup f = some m) (hr : resolve T.classes c m = some d) :
+    dispatchK T f [.op c] kwops kw = .call d m [.op c] false kw :=
+  dispatchK_other_by_keyword T c f m d kwops kw hk hf hr
 
 /-- Every registered function dispatches to a method on every operator class: never `AttributeError`. -/
 theorem registered_never_attribute_error (c : String) (hc : c ∈ operatorClasses) (e : String × String)
